@@ -459,6 +459,7 @@ def check(prop: str, tier: str) -> int:
     # ---- violations
     exit_code = 0
     reported = []
+    not_reproduced = []
     if agg['unknown']:
         install_determinism_seams()
         for u in agg['unknown'][:3]:
@@ -468,13 +469,22 @@ def check(prop: str, tier: str) -> int:
             path = write_replay(prop, tier, small, viol, digest_of(out.log))
             rc, dg, text = run_replay_subprocess(path)
             if rc != 1:
-                sys.stderr.write(f'HARNESS ERROR: violation {viol["fp"]} did not reproduce in a fresh process '
-                                 f'(rc={rc}); replay kept at {path}\n{text[-1500:]}\n')
-                return 2
+                # seen in-process but not from a fresh interpreter: state carried over from earlier runs of this worker
+                # (e.g. a process-global cache inside the library).  Never reported as a VIOLATION; a harness error unless
+                # another violation of this batch does replay.
+                not_reproduced.append((viol, path, rc, text))
+                continue
             print(f'violation: {viol["fp"]} :: {viol["detail"][:500]}')
             print(f'VIOLATION property={prop} replay={path}')
             reported.append({'fp': viol['fp'], 'replay': path})
             exit_code = 1
+        for viol, path, rc, text in not_reproduced:
+            if exit_code == 1:
+                print(f'note: {viol["fp"]} was also observed but does not replay in a fresh process (depends on state left by earlier runs); replay kept at {path}')
+            else:
+                sys.stderr.write(f'HARNESS ERROR: violation {viol["fp"]} did not reproduce in a fresh process '
+                                 f'(rc={rc}); replay kept at {path}\n{text[-1500:]}\n')
+                return 2
     for fp, n in sorted(agg['known'].items()):
         ent = known[(prop, fp)]
         print(f'KNOWN-FINDING: property={prop} {fp} :: {ent.get("what", "")} (hit in {n} runs)')
